@@ -462,9 +462,30 @@ func ExecInto(env *Env, st store.Store, o Op, full *model.Tree, ss *simnode.Sess
 		res.NotFound = true
 		return
 	}
-	sn := mnode.Tree(full.Clone())
-	sn.ReadOnly = true
-	var srcRoot node.Node = sn
+	var srcRoot node.Node
+	switch o.SrcKind {
+	case "xml":
+		// the source browser stands on a whole document; the edit starts at a selection found inside it
+		n, err := nodeutil.ReadXMLDoc(strings.NewReader(full.XML("x")))
+		if err != nil {
+			res.Err = fmt.Errorf("source: %w", err)
+			res.SourceErr = true
+			return
+		}
+		srcRoot = n
+	case "json":
+		n, err := nodeutil.ReadJSONIO(strings.NewReader(full.JSON()))
+		if err != nil {
+			res.Err = fmt.Errorf("source: %w", err)
+			res.SourceErr = true
+			return
+		}
+		srcRoot = n
+	default:
+		sn := mnode.Tree(full.Clone())
+		sn.ReadOnly = true
+		srcRoot = sn
+	}
 	if ss != nil {
 		srcRoot = ss.Wrap(srcRoot, "S", nil, "")
 	}
